@@ -166,7 +166,7 @@ func joinTokens(toks []string, st printStyle) string {
 			if !st.compact {
 				sb.WriteString(" ")
 			} else if isWordTok(prev[len(prev)-1:]) && isWordTok(t) {
-				sb.WriteString("/*c*/")
+				sb.WriteString(compactComments[i%len(compactComments)])
 			} else if sym2(prev, t) {
 				sb.WriteString(" ")
 			}
@@ -175,6 +175,9 @@ func joinTokens(toks []string, st printStyle) string {
 	}
 	return sb.String()
 }
+
+// comments used as separators in the compact printing style
+var compactComments = []string{"/*c*/", "/***/", "/* x **/", "/**/", "/* a * b / c */", "/*\n*/"}
 
 // sym2: would two symbol tokens merge when written without a separator?
 func sym2(a, b string) bool {
@@ -347,7 +350,7 @@ type vtok struct {
 
 var exprVocab = []vtok{
 	{"1", "CONST", 1}, {"2.5", "CONST", float32(2.5)}, {"'x'", "CONST", "x"}, {"TRUE", "CONST", true}, {"FALSE", "CONST", false},
-	{"a", "IDENT", nil}, {"\"q\"", "IDENT", nil},
+	{"a", "IDENT", nil}, {"\"q\"", "IDENT", nil}, {"\"and\"", "IDENT", nil}, {"\"NULL\"", "IDENT", nil}, {"\"(\"", "IDENT", nil},
 	{"(", "(", nil}, {")", ")", nil}, {"[", "[", nil}, {"]", "]", nil}, {",", ",", nil},
 	{"+", "+", nil}, {"-", "-", nil}, {"*", "MUL", nil}, {"/", "MUL", nil}, {"%", "MUL", nil}, {"^", "POW", nil},
 	{"=", "CMP", nil}, {"<>", "CMP", nil}, {"!=", "CMP", nil}, {">", "CMP", nil}, {"<", "CMP", nil}, {">=", "CMP", nil}, {"<=", "CMP", nil},
